@@ -88,6 +88,8 @@ struct Explorer {
     }
     return 0;
   }
+  // true while the execution is still replaying the deviations that define it (state-merging must not cut a prefix short)
+  bool in_prefix() const { return item && next_dev < item->ndev; }
   int choose_n(int n, int kind) { uint8_t kk[VK_MAXALT + 1]; if (n > VK_MAXALT) { diverged = true; diverge_msg = "choose_n(" + std::to_string(n) + ") exceeds VK_MAXALT"; n = VK_MAXALT; } for (int i = 0; i < n; i++) kk[i] = kind; return choose(kk, n); }
 
   bool outcome(uint64_t h) {   // returns true if new
